@@ -18,7 +18,8 @@ REQUIRED = ["PdsVerif.C07." + n for n in """
     newton_step_eq newton_step_moves_right newton_start_gt_mode newton_loop_sound env_le_at_Tstar
     newton_loop_terminates newton_terminates
     gammatone_causal_starts_at_0 gammatone_support_tail max_centered_support_shift
-    tri_time_tail tri_outside_support_far
+    tri_time_tail tri_time_tail_analytic tri_outside_support_far
+    tri_impulse_closed_form tri_impulse_closed_form_zero tri_real_eq_two_re
     """.split()]
 RULE = (
     "banks: 4 classes x {mel, bark, linear, octave} x rates {4000, 8000, 11025, 16000, 22050, 44100} x "
@@ -46,10 +47,10 @@ ASSUMPTIONS = [
     "principal image only. Same for the factor 2 (2.5) outside `supports` (`supports_hz`).",
     "the frequency-domain clause (outside supports_hz < 2.5*threshold) is tested by the oracle only here; its exact "
     "inequalities belong to C06 (gabor_outside_le_eps / gammatone_outside_le_eps)",
-    "triangular / Fbank: `supports` is proved to straddle 0 with near-symmetric bounds; that the closed-form envelope "
-    "bound quoted in the source comment (2(w_r-w_l)/((w_c-w_l)(w_r-w_c) t^2 pi)) is below the threshold outside it is "
-    "proved for the triangular bank's principal image (tri_time_tail); for Fbank (inverse FFT of sampled square "
-    "roots) it is tested only",
+    "triangular: each image val(t)/denom of the closed form is proved <= threshold (real bank) / <= threshold/2 "
+    "(analytic bank) at every sample outside `supports`; the buffer holds two images (t and t - W), their sum is "
+    "tested only. Fbank (inverse FFT of sampled square roots of a mel triangle): `supports` is proved to straddle 0 "
+    "for l < m < r, its time tail is tested only (every Fbank oracle case is counted as a hypothesis-gap case)",
     "theorem hypotheses: std > 0; alpha > 0, c > 0 (c = exp(log_c) in the constructor), order n >= 2 for the Newton "
     "branch (the n == 1 branch is modelled, outside the property); vertices l < m < r for the triangular banks; "
     "Gabor K > 0 needs peak > threshold (otherwise the constructor raises or returns K = 0: counted as gap)",
@@ -65,8 +66,9 @@ LEVEL_TEXT = (
     "within an explicit computable fuel; on exit every sample after the returned support is <= threshold and every "
     "sample at or before the left end is 0; causal supports start at 0; max_centered supports are the causal ones "
     "shifted by floor(-(n-1)/alpha); is_real iff not analytic (tri/Fbank), false for Gabor/gammatone, equal to the "
-    "dtype returned; the triangular closed form equals the inverse Fourier integral of the triangle. The 2*threshold "
-    "IDFT agreement and the aliased sums are oracle-tested only."
+    "dtype returned; the triangular closed form (real and analytic, and the t = 0 term) equals the inverse Fourier "
+    "integral of the triangle over C, and each of its images is below the threshold outside `supports`. The "
+    "2*threshold IDFT agreement, the aliased sums and the Fbank time tail are oracle-tested only."
 )
 LEVEL_NOTE = (
     "Trusted: translator banktime.py, hand-modelled loop/store structure, float correspondence at 1e-9 relative, "
@@ -135,6 +137,23 @@ def gen_configs(ctx, n):
                       max_centered=False, l2=False, erb=False))
     fixed.append(dict(bank="gammatone", scale="mel", rate=8000, low=20.0, high=None, num_filts=5, order=4,
                       max_centered=True, l2=True, erb=True))
+    if ctx.tier == "thorough":
+        # systematic grid: every class x scale x rate x flag combination once (orders 3..8)
+        for rate in (4000, 8000, 11025, 16000, 22050, 44100):
+            for scale in ("mel", "bark", "linear", "octave"):
+                low = 20.0 if scale == "octave" else 0.0
+                for an in (False, True):
+                    fixed.append(dict(bank="tri", scale=scale, rate=rate, low=low, high=None, num_filts=9, analytic=an))
+                    if scale == "mel":
+                        fixed.append(dict(bank="fbank", scale="mel", rate=rate, low=low, high=None, num_filts=9, analytic=an))
+                for erb in (False, True):
+                    for l2 in (False, True):
+                        fixed.append(dict(bank="gabor", scale=scale, rate=rate, low=low, high=None, num_filts=9, l2=l2, erb=erb))
+                    for mc in (False, True):
+                        for order in (3, 4, 5, 6, 7, 8):
+                            fixed.append(dict(bank="gammatone", scale=scale, rate=rate, low=low, high=None, num_filts=6,
+                                              order=order, max_centered=mc, l2=False, erb=erb))
+        ctx.extra["systematic_grid_banks"] = len(fixed)
     r.shuffle(fixed)
     out += fixed
     while len(out) < n:
@@ -299,6 +318,8 @@ def oracle_filter(ctx, cfg, bank, i, W, eps):
     x = bank.get_impulse_response(i, W)
     X = bank.get_frequency_response(i, W)
     ctx.case(case, kind="oracle:" + kind)
+    if kind == "fbank":
+        ctx.gap_cases += 1  # no theorem covers the Fbank time tail
     if len(x) != W or len(X) != W:
         ctx.violation(case, W, [len(x), len(X)], "buffers have the requested width", tags=dict(tags, clause="width"))
         return x, X
@@ -378,7 +399,7 @@ def run(ctx, driver):
 
     eps = float(config.EFFECTIVE_SUPPORT_THRESHOLD)
     r = ctx.rng
-    nb = ctx.scale(160, 2400)
+    nb = ctx.scale(400, 5000)
     cap = 6000 if ctx.tier == "quick" else 20000
     per_bank_s = 1.5 if ctx.tier == "quick" else 3.0
     cfgs = gen_configs(ctx, nb)
